@@ -64,14 +64,21 @@ theorem length_exact (f : Frame) (hw : f.wellTyped = true) (h : f.panics = false
     simp [Frame.bytes, Frame.length, len_enc, h, hw] <;> omega
   | resetStream sid ec fs rs =>
     simp [Frame.panics, Frame.varints, fits] at h
-    by_cases h0 : rs = 0
-    · simp [h0] at h
-      simp [Frame.bytes, Frame.length, h0, len_enc, h, c1, show ftResetStream ≤ maxVarInt8 by decide]
-      omega
-    · have hp : rs > 0 := by omega
+    by_cases hp : posI64 rs = true
+    · have h0 : rs ≠ 0 := by simp [posI64] at hp; omega
       simp [h0, hp] at h
       simp [Frame.bytes, Frame.length, h0, hp, len_enc, h, c2, show ftResetStreamAt ≤ maxVarInt8 by decide]
       omega
+    · have hp' : posI64 rs = false := by simpa using hp
+      by_cases h0 : rs = 0
+      · subst h0
+        have hz : posI64 0 = false := by decide
+        simp [hz] at h
+        simp [Frame.bytes, Frame.length, hz, len_enc, h, c1, show ftResetStream ≤ maxVarInt8 by decide]
+        omega
+      · simp [h0, hp'] at h
+        simp [Frame.bytes, Frame.length, h0, hp', len_enc, h, c2, show ftResetStreamAt ≤ maxVarInt8 by decide]
+        omega
   | stopSending sid ec =>
     simp [Frame.panics, Frame.varints, fits] at h
     simp [Frame.bytes, Frame.length, len_enc, h] <;> omega
